@@ -22,6 +22,7 @@ import re
 import shutil
 import sys
 import tempfile
+import zlib
 import time
 
 import implrun  # noqa: F401  (sets sys.path)
@@ -611,7 +612,16 @@ def run(ctx):
                 extra["poor_DocumentRoot"] = cfg.env_root
             if cfg.env_index is not None:
                 extra["poor_DocumentIndex"] = cfg.env_index
-            env = environ(method=method, path=wire, extra=extra)
+            # headers by which proxies and forms ask for another method:
+            # the gate is the request method the server reports
+            hdrs = {}
+            pick = zlib.crc32(("%s %s" % (method, text)).encode(
+                "utf-8", "surrogatepass")) % 8
+            if method not in ("GET", "HEAD") and pick < 3:
+                hdrs[("X-HTTP-Method-Override", "X-Method-Override",
+                      "X-HTTP-Method")[pick]] = ("GET", "HEAD", "get")[pick]
+            env = environ(method=method, path=wire, extra=extra,
+                          headers=hdrs)
             cfg.seen.clear()
             del probed[:]
             AUDIT.events = []
@@ -651,7 +661,8 @@ def run(ctx):
             req_path = cfg.seen.get("path", decode_path(wire))
             body = ans.body or b""
             replay = dict(cfg.describe(), REQUEST_METHOD=method,
-                          PATH_INFO=wire, status=ans.status)
+                          PATH_INFO=wire, status=ans.status,
+                          request_headers=hdrs)
 
             # ---- correspondence case
             opens = [e for e in events if e[0] == "open"]
